@@ -29,6 +29,8 @@ type Probe struct {
 	Ins      bool
 	Acc      string
 	Eff      bool
+	G        int   // volq: GroupLvl
+	Q        *mflt // volq / aggq / accsq: metadata filter (nil = none)
 }
 
 func optI(p *int64) string {
@@ -47,6 +49,12 @@ func (p Probe) sx() string {
 		return L("accs", optI(p.PIT))
 	case "accvol":
 		return L("accvol", optI(p.PIT), b01(p.Eff))
+	case "volq":
+		return L("volq", optI(p.PIT), optI(p.OOT), b01(p.Ins), fmt.Sprint(p.G), p.Q.sx())
+	case "aggq":
+		return L("aggq", optI(p.PIT), b01(p.Ins), p.Q.sx())
+	case "accsq":
+		return L("accsq", optI(p.PIT), p.Q.sx())
 	default:
 		return L("txs", optI(p.PIT))
 	}
@@ -91,6 +99,8 @@ func (hr *HistRun) runProbe(p Probe) (a ProbeAns) {
 		return L(out...)
 	}
 	switch p.Kind {
+	case "volq", "aggq", "accsq":
+		return hr.runProbeQ(p)
 	case "vol":
 		vs, err := listAll(hr.ctx, hr.ctrl.GetVolumesWithBalances, common.InitialPaginatedQuery[ledger.GetVolumesOptions]{PageSize: 9,
 			Options: common.ResourceQuery[ledger.GetVolumesOptions]{PIT: ltime(p.PIT), OOT: ltime(p.OOT), Opts: ledger.GetVolumesOptions{UseInsertionDate: p.Ins}}})
@@ -185,6 +195,9 @@ func (hr *HistRun) runProbe(p Probe) (a ProbeAns) {
 	}
 	return a
 }
+
+// the account alphabet of the reads tie (C05 / C20 runs): genAccounts plus addresses sharing a 1-, 2- and 3-segment prefix
+var readsAccounts = []string{"world", "alice", "bob", "users:1", "users:2:main", "bank", "users:2:sav", "bank:eu", "users:2:main:sub"}
 
 func genProbes(r *Rng, ops []Op, n int) []Probe {
 	set := map[int64]bool{}
@@ -299,6 +312,12 @@ func parseReadsCase(line string) (Feat, []Op, []Probe) {
 			probes = append(probes, Probe{Kind: "accvol", PIT: oi(p.List[1]), Eff: p.List[2].Atom == "1"})
 		case "txs":
 			probes = append(probes, Probe{Kind: "txs", PIT: oi(p.List[1])})
+		case "volq":
+			probes = append(probes, Probe{Kind: "volq", PIT: oi(p.List[1]), OOT: oi(p.List[2]), Ins: p.List[3].Atom == "1", G: int(atoi(p.List[4].Atom)), Q: parseMflt(p.List[5])})
+		case "aggq":
+			probes = append(probes, Probe{Kind: "aggq", PIT: oi(p.List[1]), Ins: p.List[2].Atom == "1", Q: parseMflt(p.List[3])})
+		case "accsq":
+			probes = append(probes, Probe{Kind: "accsq", PIT: oi(p.List[1]), Q: parseMflt(p.List[2])})
 		}
 	}
 	return f, ops, probes
@@ -311,6 +330,14 @@ func cmdReads(args []string) int {
 	prof := HistProfile{MaxOps: 12, Backdate: true}
 	if strings.Contains(f.Extra["monitors"], "C17") {
 		prof.FutureMeta = true
+	} else {
+		// addresses sharing their first one / two / three segments, so that groupBy 1..3 really merges rows
+		saved := genAccounts
+		genAccounts = readsAccounts
+		defer func() { genAccounts = saved }()
+	}
+	if strings.Contains(f.Extra["monitors"], "C20") {
+		prof.AccMetaHeavy = true // more account metadata writes / deletions: the metadata as of t differs from the current one
 	}
 	feats := []Feat{allOn, allOn, {true, true, false, false, true}, {true, false, true, true, false}, {false, false, true, false, true}, {true, true, true, false, false}, {true, true, false, true, false}}
 	nprobes := 24
@@ -359,6 +386,29 @@ func cmdReads(args []string) int {
 				}
 			}
 		}
+		// grouped volumes = the ungrouped listing of the same query summed per truncated address (C05; C21: the keys of the
+		// grouped listing; C01: totals per asset)
+		for i, p := range probes {
+			if strings.Contains(mon, "C05") || mon == "" {
+				if msg := monGroupedProbe(hr, p, ans[i]); msg != "" {
+					out.Violation("C05", cs, fmt.Sprintf("probe %s: %s", p.sx(), msg))
+					break
+				}
+			}
+		}
+		// metadata filters select on the metadata as of the point in time (C20 "with or without a point in time", C17 "history
+		// reflects the past")
+		for _, id := range []string{"C17", "C20"} {
+			if !(strings.Contains(mon, id) || mon == "") {
+				continue
+			}
+			for i, p := range probes {
+				if msg := monMetaFilterProbe(hr, p, ans[i]); msg != "" {
+					out.Violation(id, cs, fmt.Sprintf("probe %s: %s", p.sx(), msg))
+					break
+				}
+			}
+		}
 	}
 	if f.Replay != "" {
 		for _, line := range ReadLines(f.Replay) {
@@ -373,7 +423,11 @@ func cmdReads(args []string) int {
 		feat := Pick(rr, feats)
 		hr := newHistRun(feat, false)
 		ops := genHistory(rr, prof, feat, hr.Step)
-		finish(hr, genProbes(rr, ops, nprobes))
+		probes := genProbes(rr, ops, nprobes)
+		if n := len(hr.Res); n == 0 || hr.Res[n-1].Panic == "" {
+			probes = append(probes, genProbesQ(rr.Fork(), hr, ops)...)
+		}
+		finish(hr, probes)
 	}
 	return 0
 }
